@@ -70,6 +70,13 @@ class OpRunner(object):
             full = pb if rel == b'.' else pb + b'/' + rel
             w.baseline[full[len(rootb) + 1:]] = e
 
+    def td_arg_of(self, reg, **kw):
+        """--trash-dir argument for the abstract value reg: a region (its custom trash directory, spelled) or 'top:V1' (the
+        top directory of that volume itself)"""
+        if reg.startswith('top:'):
+            return self.w.rpath(reg[4:]) + self.rnd.choice(['', '/']), None, 'volume-top'
+        return self.spell_td('c:' + reg, **kw)
+
     def spell_td(self, t, cwd_free=True, spelling=None):
         """-> (--trash-dir argument, cwd or None, spelling name).  All spellings designate the same directory for the
         file system; 'linkdotdot' designates ANOTHER, populated, trash directory for whoever collapses '..' lexically"""
@@ -355,7 +362,7 @@ class OpRunner(object):
         if lab['td'] != 'none':
             regs = lab['td'].split('+')
             for r_ in regs:
-                tdarg, c, tdsp = self.spell_td('c:' + r_, cwd_free=(len(regs) == 1))
+                tdarg, c, tdsp = self.td_arg_of(r_, cwd_free=(len(regs) == 1))
                 cwd = c or cwd
                 argv += ['--trash-dir', tdarg]
         res = self._run('trash-list', argv, cwd, shim_kw=shim_kw)
@@ -520,7 +527,7 @@ class OpRunner(object):
                 regs.reverse()
             for r_ in regs:
                 # several --trash-dir: relative spellings need one cwd, so only the first may choose it
-                tdarg, c, tdsp = self.spell_td('c:' + r_, cwd_free=(cwd == self.neutral_cwd() and len(regs) == 1))
+                tdarg, c, tdsp = self.td_arg_of(r_, cwd_free=(cwd == self.neutral_cwd() and len(regs) == 1))
                 cwd = c or cwd
                 tdargs['c:' + r_] = tdarg
                 argv += ['--trash-dir', tdarg] if self.rnd.random() < 0.7 else ['--trash-dir=' + tdarg]
